@@ -9,6 +9,28 @@ type ClassNode struct {
 
 var ClassInheritanceMap = make(map[ClassNode][]ClassNode)
 
+// parentNodes lists the parents of a class in the order they are searched:
+// the implicit Object parent (Builtin, class "") after the declared
+// superclasses and modules, so that what those declare overrides what Object
+// declares, whatever order the edges were added in.
+func parentNodes(classNode ClassNode) []ClassNode {
+	nodes := ClassInheritanceMap[classNode]
+
+	ordered := make([]ClassNode, 0, len(nodes))
+	var objectNodes []ClassNode
+
+	for _, node := range nodes {
+		if node.Frame == "Builtin" && node.Class == "" && !node.IsInclude && !node.IsExtend {
+			objectNodes = append(objectNodes, node)
+			continue
+		}
+
+		ordered = append(ordered, node)
+	}
+
+	return append(ordered, objectNodes...)
+}
+
 // IsInheritanceCycle reports whether making parent an ancestor of class would
 // close a cycle (parent is class itself or already descends from it). Such an
 // edge must not be added: every ancestor walk would recurse forever.
